@@ -28,6 +28,18 @@ pub mod streaming_kzg {
         proof { reveal_with_fuel(dot, 3); broadcast use ax_add_zero, ax_add_comm; }
 //@end
     }
+//@lemma props=C02
+    // C02: for a fixed commitment, point and proof, at most one value is accepted
+    pub proof fn lemma_skzg_value_unique(vk: &VerifierKey, c: &Commitment, alpha: FS, v1: FS, v2: FS, proof: &EvaluationProof)
+        requires vk.powers_of_g@[0]@ != f_zero(), vk.powers_of_g2@[0]@ != f_zero(), skzg_relation(vk, c, alpha, v1, proof), skzg_relation(vk, c, alpha, v2, proof)
+        ensures v1 == v2
+    {
+        let g = vk.powers_of_g@[0]@; let h = vk.powers_of_g2@[0]@;
+        lemma_mul_cancel(f_sub(c.0@, f_mul(g, v1)), f_sub(c.0@, f_mul(g, v2)), h);
+        lemma_sub_cancel_left(c.0@, f_mul(g, v1), f_mul(g, v2));
+        ax_mul_comm(g, v1); ax_mul_comm(g, v2);
+        lemma_mul_cancel(v1, v2, g);
+    }
 }
 pub mod multilinear_pc {
     use super::*;
@@ -108,5 +120,16 @@ pub mod multilinear_pc {
             assert(g2prep_views(pairing_rights@) =~= g2views(proof.proofs@));
         }
 //@end
+    }
+//@lemma props=C02
+    // C02: for a fixed commitment, point and proof, at most one value is accepted
+    pub proof fn lemma_mlpc_value_unique(vk: &VerifierKey, c: &Commitment, point: Seq<Fr>, v1: FS, v2: FS, proof: &Proof)
+        requires vk.g@ != f_zero(), vk.h@ != f_zero(), mlpc_relation(vk, c, point, v1, proof), mlpc_relation(vk, c, point, v2, proof)
+        ensures v1 == v2
+    {
+        lemma_mul_cancel(f_sub(c.g_product@, f_mul(vk.g@, v1)), f_sub(c.g_product@, f_mul(vk.g@, v2)), vk.h@);
+        lemma_sub_cancel_left(c.g_product@, f_mul(vk.g@, v1), f_mul(vk.g@, v2));
+        ax_mul_comm(vk.g@, v1); ax_mul_comm(vk.g@, v2);
+        lemma_mul_cancel(v1, v2, vk.g@);
     }
 }
